@@ -177,6 +177,10 @@ func (vc *FnVC) callInner(in *ssa.Call) {
 			vc.callContract(in, callee, fc)
 			return
 		}
+		// assumed contract on a dependency
+		if vc.matchExtern(in, callee) {
+			return
+		}
 		// library model
 		if vc.libModel(in, callee) {
 			return
@@ -235,7 +239,7 @@ func (vc *FnVC) pointEnv(in ssa.Instruction) *Env {
 	env.lookup = func(name string) (Term, bool) {
 		v, ok := vc.resolveName(name, b, idx)
 		if !ok {
-			return Term{}, false
+			return vc.allocLocalTerm(name, env)
 		}
 		return vc.val(v), true
 	}
@@ -262,6 +266,98 @@ func (vc *FnVC) pointEnv(in ssa.Instruction) *Env {
 // callContract: modular call — check requires, havoc modifies, assume ensures.
 func (vc *FnVC) callContract(in *ssa.Call, callee *ssa.Function, fc *FuncContract) {
 	args := in.Call.Args
+	vars := map[string]Term{}
+	for i, p := range callee.Params {
+		if i >= len(args) {
+			break
+		}
+		a := vc.val(args[i])
+		a.T = p.Type()
+		vars[p.Name()] = a
+		if i < len(fc.Params) && fc.Params[i] != "_" {
+			vars[fc.Params[i]] = a
+		}
+		if l, ok := vc.locOf(args[i]); ok {
+			if vc.callLocVars == nil {
+				vc.callLocVars = map[string]Loc{}
+			}
+			vc.callLocVars[p.Name()] = l
+			if i < len(fc.Params) && fc.Params[i] != "_" {
+				vc.callLocVars[fc.Params[i]] = l
+			}
+		}
+	}
+	vc.callContractWith(in, callee, fc, vars, callee.Pkg.Pkg)
+	vc.callLocVars = nil
+}
+
+// matchExtern finds an assumed dependency contract whose typed parameters match the static
+// types of the call's arguments (looking through interface boxing at the call site).
+func (vc *FnVC) matchExtern(in *ssa.Call, callee *ssa.Function) bool {
+	if vc.prog == nil || callee == nil {
+		return false
+	}
+	name := callee.String()
+	if k := strings.Index(name, "["); k >= 0 {
+		name = name[:k]
+	}
+	for _, fc := range vc.prog.externs[name] {
+		pkg := vc.prog.typesPkg(fc.Pkg)
+		if pkg == nil || len(fc.MathParams) != len(in.Call.Args) {
+			continue
+		}
+		env := &Env{vc: vc, vars: map[string]Term{}, pkg: pkg}
+		vars := map[string]Term{}
+		ok := true
+		for i, p := range fc.MathParams {
+			a := in.Call.Args[i]
+			for {
+				if mi, isMI := a.(*ssa.MakeInterface); isMI {
+					a = mi.X
+				} else if ci, isCI := a.(*ssa.ChangeInterface); isCI {
+					a = ci.X
+				} else {
+					break
+				}
+			}
+			var want types.Type
+			func() {
+				defer func() {
+					if r := recover(); r != nil {
+						if _, isE := r.(elabErr); !isE {
+							panic(r)
+						}
+					}
+				}()
+				want = env.resolveTypeText(p.Type)
+			}()
+			if want == nil || !types.Identical(want, a.Type()) {
+				ok = false
+				break
+			}
+			t := vc.val(a)
+			t.T = want
+			vars[p.Name] = t
+			if l, isLoc := vc.locOf(a); isLoc {
+				if vc.callLocVars == nil {
+					vc.callLocVars = map[string]Loc{}
+				}
+				vc.callLocVars[p.Name] = l
+			}
+		}
+		if !ok {
+			vc.callLocVars = nil
+			continue
+		}
+		vc.assume("assumed contract on dependency " + name + " (extern, " + fc.File + ")")
+		vc.callContractWith(in, callee, fc, vars, pkg)
+		vc.callLocVars = nil
+		return true
+	}
+	return false
+}
+
+func (vc *FnVC) callContractWith(in *ssa.Call, callee *ssa.Function, fc *FuncContract, vars map[string]Term, cpkg *types.Package) {
 	preHeap := map[string]string{}
 	for k, v := range vc.curHeap {
 		preHeap[k] = v
@@ -274,18 +370,7 @@ func (vc *FnVC) callContract(in *ssa.Call, callee *ssa.Function, fc *FuncContrac
 			return vc.entryComp(comp, sort)
 		}
 	}
-	env := &Env{vc: vc, vars: map[string]Term{}, pkg: callee.Pkg.Pkg}
-	for i, p := range callee.Params {
-		if i >= len(args) {
-			break
-		}
-		a := vc.val(args[i])
-		a.T = p.Type()
-		env.vars[p.Name()] = a
-		if i < len(fc.Params) && fc.Params[i] != "_" {
-			env.vars[fc.Params[i]] = a
-		}
-	}
+	env := &Env{vc: vc, vars: vars, pkg: cpkg, locVars: vc.callLocVars}
 	// ghost parameters of the callee: existentially chosen by the caller — we use fresh
 	// constants constrained by nothing for requires (must hold for the chosen ones):
 	// not supported; contracts with ghosts cannot be called modularly.
@@ -321,7 +406,7 @@ func (vc *FnVC) callContract(in *ssa.Call, callee *ssa.Function, fc *FuncContrac
 	// results
 	results := vc.freshResults(in, "r$"+mangle(callee.Name()))
 	vc.setCallResult(in, results)
-	post := &Env{vc: vc, vars: map[string]Term{}, pkg: callee.Pkg.Pkg}
+	post := &Env{vc: vc, vars: map[string]Term{}, pkg: cpkg, locVars: vc.callLocVars}
 	for k, v := range env.vars {
 		post.vars[k] = v
 	}
@@ -415,6 +500,30 @@ func (vc *FnVC) applyModItem(m modItem, pos token.Pos) {
 		vc.checkWrite(m.comp, m.ref, "", "callee-modifies "+m.text, pos)
 		f := vc.freshConst("cm", "(Array Int "+vc.sortOf(m.elem)+")")
 		vc.heapSet(m.comp, srt, fmt.Sprintf("(store %s %s %s)", vc.heapGet(m.comp, srt), m.ref, f))
+	case "objrange":
+		if vc.fc != nil && !vc.rootIsFresh(m.ref) {
+			var alts []string
+			for _, mine := range vc.modItems {
+				if mine.kind != "objrange" || mine.comp != m.comp {
+					continue
+				}
+				switch {
+				case mine.lo == "":
+					alts = append(alts, fmt.Sprintf("(= %s %s)", m.ref, mine.ref))
+				case m.lo != "":
+					alts = append(alts, fmt.Sprintf("(and (= %s %s) (or (>= %s %s) (and (<= %s %s) (<= %s %s))))", m.ref, mine.ref, m.lo, m.hi, mine.lo, m.lo, m.hi, mine.hi))
+				}
+			}
+			for _, a := range vc.allocRefs {
+				alts = append(alts, fmt.Sprintf("(= %s %s)", m.ref, a))
+			}
+			vc.decl("allocated0", "(declare-fun allocated0 (Int) Bool)")
+			alts = append(alts, fmt.Sprintf("(not (allocated0 %s))", m.ref))
+			vc.obAssert("frame", "frame@callee-modifies "+m.text, "callee's modifies "+m.text+" is permitted by the caller's modifies clause", "(or "+strings.Join(alts, " ")+" false)", pos)
+		}
+		old := vc.heapGet(m.comp, srt)
+		n := vc.heapHavoc(m.comp, srt)
+		vc.fact(fmt.Sprintf("(forall ((r Int)) (! (=> (not %s) (= (select %s r) (select %s r))) :pattern ((select %s r))))", vc.objRegionCond(m, "r"), n, old, n))
 	case "range":
 		vc.checkRangeWrite(m, pos)
 		f := vc.freshConst("cm", "(Array Int "+vc.sortOf(m.elem)+")")
@@ -445,6 +554,8 @@ func (vc *FnVC) checkRangeWrite(m modItem, pos token.Pos) {
 	}
 	vc.decl("allocated0", "(declare-fun allocated0 (Int) Bool)")
 	alts = append(alts, fmt.Sprintf("(not (allocated0 %s))", m.ref))
+	// an empty range writes nothing
+	alts = append(alts, fmt.Sprintf("(>= %s %s)", m.lo, m.hi))
 	cond := "false"
 	if len(alts) > 0 {
 		cond = "(or " + strings.Join(alts, " ") + " false)"
@@ -457,6 +568,8 @@ func (vc *FnVC) compSortOf(m modItem) string {
 		return s
 	}
 	switch m.kind {
+	case "objrange":
+		return m.csort
 	case "field", "anyref":
 		if m.owner != nil {
 			_, s := vc.fieldComp(m.owner, m.field)
@@ -558,7 +671,28 @@ func (vc *FnVC) copyBuiltin(in *ssa.Call) {
 	}
 	nT := vc.define(in, n)
 	if isObjectType(dt.Elem()) {
-		vc.notes = append(vc.notes, "copy of object slice: destination havocked")
+		if srcIsString {
+			vc.errorf("copy of a string into an object slice")
+			return
+		}
+		arr := fmt.Sprintf("(s.arr %s)", dst.S)
+		if !vc.rootIsFresh(arr) && vc.fc != nil {
+			var alts []string
+			for _, mine := range vc.modItems {
+				if mine.kind == "elems" {
+					alts = append(alts, fmt.Sprintf("(= %s %s)", arr, mine.ref))
+				}
+			}
+			for _, a := range vc.allocRefs {
+				alts = append(alts, fmt.Sprintf("(= %s %s)", arr, a))
+			}
+			alts = append(alts, fmt.Sprintf("(not (allocated0 %s))", arr))
+			vc.obAssert("frame", "frame@copy("+vc.valueText(args[0])+", ...)", "copy writes only permitted memory", fmt.Sprintf("(or (= %s 0) %s false)", nT.S, strings.Join(alts, " ")), in.Pos())
+		}
+		rg := objRegion{"true", arr, fmt.Sprintf("(s.off %s)", dst.S), fmt.Sprintf("(+ (s.off %s) %s)", dst.S, nT.S), fmt.Sprintf("(s.arr %s)", src.S), fmt.Sprintf("(s.off %s)", src.S)}
+		if !vc.copyObjRegions(dt.Elem(), []objRegion{rg}) {
+			vc.errorf("copy of object slice with unsupported element type %s", dt.Elem())
+		}
 		return
 	}
 	c, s := vc.elemComp(dt.Elem())
@@ -580,6 +714,98 @@ func (vc *FnVC) copyBuiltin(in *ssa.Call) {
 		vc.fact(fmt.Sprintf("(forall ((i Int)) (! (= (select %s i) (ite (and (<= %s i) (< i %s)) (select %s (+ (s.off %s) (- i %s))) (select %s i))) :pattern ((select %s i))))", f, lo, hi, srcArr, src.S, lo, old, f))
 	}
 	vc.heapSet(c, s, fmt.Sprintf("(store %s %s %s)", h, arr, f))
+}
+
+// objRegion: elements [lo,hi) of array dst receive the elements of array src starting at srcLo,
+// when cond holds (all SMT terms).
+type objRegion struct {
+	cond, dst, lo, hi, src, srcLo string
+}
+
+// objLeaf: one heap component that holds part of an object of some type, with the path from
+// the object's reference to the index used in that component, and its inverse.
+type objLeaf struct {
+	comp, sort string
+	path, inv  func(string) string
+}
+
+func (vc *FnVC) objLeaves(t types.Type, path, inv func(string) string, out *[]objLeaf) bool {
+	if isUint256(t) || isBigInt(t) {
+		c, s := vc.cellComp(t)
+		*out = append(*out, objLeaf{c, s, path, inv})
+		return true
+	}
+	switch u := t.Underlying().(type) {
+	case *types.Struct:
+		for i := 0; i < u.NumFields(); i++ {
+			ft := u.Field(i).Type()
+			if isObjectType(ft) {
+				i := i
+				vc.fldRef(t, i, "0") // declares the sub-reference function and its inverse
+				fn := "fld$" + shortTypeName(t) + "$" + u.Field(i).Name()
+				p2 := func(r string) string { return fmt.Sprintf("(%s %s)", fn, path(r)) }
+				i2 := func(r string) string { return inv(fmt.Sprintf("(%s$inv %s)", fn, r)) }
+				if !vc.objLeaves(ft, p2, i2, out) {
+					return false
+				}
+			} else {
+				c, s := vc.fieldComp(t, i)
+				*out = append(*out, objLeaf{c, s, path, inv})
+			}
+		}
+		return true
+	case *types.Array:
+		if isObjectType(u.Elem()) {
+			return false
+		}
+		c, s := vc.elemComp(u.Elem())
+		*out = append(*out, objLeaf{c, s, path, inv})
+		return true
+	}
+	return false
+}
+
+// copyObjRegions models a memmove of object-typed slice elements: every heap component that
+// holds part of an element gets a new version that agrees with the old one except on the
+// destination regions, which receive the pre-state contents of the source elements.
+func (vc *FnVC) copyObjRegions(el types.Type, regions []objRegion) bool {
+	var leaves []objLeaf
+	id := func(r string) string { return r }
+	if !vc.objLeaves(el, id, id, &leaves) {
+		return false
+	}
+	vc.elemRef(el, "0", "0") // declares elem$T and its inverses
+	efn := "elem$" + shortTypeName(el)
+	type upd struct {
+		comp, old, neu string
+	}
+	var upds []upd
+	seen := map[string]bool{}
+	for _, lf := range leaves {
+		if seen[lf.comp] {
+			// two leaves in one component (same field type reached twice): not handled
+			return false
+		}
+		seen[lf.comp] = true
+		upds = append(upds, upd{lf.comp, vc.heapGet(lf.comp, lf.sort), ""})
+	}
+	for k, lf := range leaves {
+		n := vc.heapHavoc(lf.comp, lf.sort)
+		upds[k].neu = n
+		old := upds[k].old
+		e := lf.inv("r")
+		a := fmt.Sprintf("(%s$arr %s)", efn, e)
+		i := fmt.Sprintf("(%s$idx %s)", efn, e)
+		valid := fmt.Sprintf("(= r %s)", lf.path(fmt.Sprintf("(%s %s %s)", efn, a, i)))
+		body := fmt.Sprintf("(select %s r)", old)
+		for j := len(regions) - 1; j >= 0; j-- {
+			rg := regions[j]
+			srcRef := lf.path(fmt.Sprintf("(%s %s (+ %s (- %s %s)))", efn, rg.src, rg.srcLo, i, rg.lo))
+			body = fmt.Sprintf("(ite (and %s %s (= %s %s) (<= %s %s) (< %s %s)) (select %s %s) %s)", rg.cond, valid, a, rg.dst, rg.lo, i, i, rg.hi, old, srcRef, body)
+		}
+		vc.fact(fmt.Sprintf("(forall ((r Int)) (! (= (select %s r) %s) :pattern ((select %s r))))", n, body, n))
+	}
+	return true
 }
 
 // appendBuiltin models append(s, t...) exactly: in place when it fits, otherwise a fresh
@@ -610,7 +836,32 @@ func (vc *FnVC) appendBuiltin(in *ssa.Call) {
 	vc.fact(fmt.Sprintf("(and (>= %s %s) (<= %s 281474976710656))", fcap, newLen, fcap))
 	res := vc.define(in, fmt.Sprintf("(ite %s (mkSlice (s.arr %s) (s.off %s) %s (s.cap %s)) (mkSlice %s 0 %s %s))", fits, s.S, s.S, newLen, s.S, farr, newLen, fcap))
 	if isObjectType(el) {
-		vc.notes = append(vc.notes, "append on object slice: contents not modelled")
+		if tIsString {
+			vc.notes = append(vc.notes, "append on object slice: contents not modelled")
+			return
+		}
+		if !vc.rootIsFresh(fmt.Sprintf("(s.arr %s)", s.S)) && vc.fc != nil {
+			arr := fmt.Sprintf("(s.arr %s)", s.S)
+			var alts []string
+			for _, mine := range vc.modItems {
+				if mine.kind == "elems" {
+					alts = append(alts, fmt.Sprintf("(= %s %s)", arr, mine.ref))
+				}
+			}
+			for _, a := range vc.allocRefs {
+				alts = append(alts, fmt.Sprintf("(= %s %s)", arr, a))
+			}
+			alts = append(alts, fmt.Sprintf("(not (allocated0 %s))", arr))
+			cond := fmt.Sprintf("(or (not %s) (= %s 0) %s false)", fits, tlen, strings.Join(alts, " "))
+			vc.obAssert("frame", "frame@append("+vc.valueText(args[0])+")", "in-place append writes only permitted memory", cond, in.Pos())
+		}
+		regions := []objRegion{
+			{"true", fmt.Sprintf("(s.arr %s)", res.S), fmt.Sprintf("(+ (s.off %s) (s.len %s))", res.S, s.S), fmt.Sprintf("(+ (s.off %s) %s)", res.S, newLen), fmt.Sprintf("(s.arr %s)", t.S), fmt.Sprintf("(s.off %s)", t.S)},
+			{fmt.Sprintf("(not %s)", fits), farr, "0", fmt.Sprintf("(s.len %s)", s.S), fmt.Sprintf("(s.arr %s)", s.S), fmt.Sprintf("(s.off %s)", s.S)},
+		}
+		if !vc.copyObjRegions(el, regions) {
+			vc.notes = append(vc.notes, "append on object slice: contents not modelled")
+		}
 		return
 	}
 	c, srt := vc.elemComp(el)
@@ -671,7 +922,7 @@ var noEffectPrefixes = []string{
 	"(github.com/ethereum/go-ethereum/common.Hash).", "(github.com/ethereum/go-ethereum/common.Address).",
 	"github.com/ethereum/go-ethereum/common.BytesToHash", "github.com/ethereum/go-ethereum/common.BytesToAddress", "github.com/ethereum/go-ethereum/common.BigToHash",
 	"github.com/ethereum/go-ethereum/crypto.Keccak256", "github.com/ethereum/go-ethereum/crypto.CreateAddress",
-	"(*sync.Mutex).", "(*sync.RWMutex).", "(*sync/atomic.", "sync/atomic.",
+	"(*sync.Mutex).", "(*sync.RWMutex).", "(*sync/atomic.", "sync/atomic.", "(*sync.Pool).",
 }
 
 func (vc *FnVC) isNoEffect(name string) bool {
@@ -703,6 +954,12 @@ func (vc *FnVC) havocCall(in *ssa.Call, name string) {
 				vc.fact(fmt.Sprintf("(not (= %s %s))", results[0].S, g))
 			}
 			vc.newErrs = append(vc.newErrs, results[0].S)
+		}
+	}
+	if vc.prog != nil && vc.prog.isFreshResult(name) && len(results) >= 1 && results[0].Sort == "Int" {
+		if _, isPtr := results[0].T.Underlying().(*types.Pointer); isPtr {
+			vc.newAllocFacts(results[0].S)
+			vc.assume("constructor " + name + " returns a newly allocated object (fresh-result directive)")
 		}
 	}
 	if vc.prog != nil && vc.prog.isPureObserver(name) {
@@ -784,6 +1041,15 @@ func lastSeg(n string) string {
 }
 
 func (vc *FnVC) havocArg(a ssa.Value, pos token.Pos, callee string) {
+	// a pointer or slice boxed into an interface at the call site is still an explicit argument
+	switch x := a.(type) {
+	case *ssa.MakeInterface:
+		vc.havocArg(x.X, pos, callee)
+		return
+	case *ssa.ChangeInterface:
+		vc.havocArg(x.X, pos, callee)
+		return
+	}
 	if l, ok := vc.locOf(a); ok {
 		// interior pointer to a scalar escapes into the call
 		vc.checkWrite(l.comp, l.ref, l.idx, vc.addrText(a)+" (passed to "+lastSeg(callee)+")", pos)
@@ -990,8 +1256,71 @@ func (vc *FnVC) deferInstr(in *ssa.Defer) {
 	vc.notes = append(vc.notes, "defer "+name)
 }
 
+// inlineSingleBlock executes the body of a straight-line function (one basic block, no
+// defers, goroutines or panics) in the current state, with the given argument terms and
+// captured variables. Used for small closures (deferred restore actions, predicates).
+func (vc *FnVC) inlineSingleBlock(fn *ssa.Function, args []Term, bindings []ssa.Value) ([]Term, bool) {
+	if fn == nil || len(fn.Blocks) != 1 || len(args) != len(fn.Params) || len(bindings) != len(fn.FreeVars) {
+		return nil, false
+	}
+	for _, in := range fn.Blocks[0].Instrs {
+		switch in.(type) {
+		case *ssa.Defer, *ssa.RunDefers, *ssa.Go, *ssa.Panic, *ssa.Send, *ssa.Select, *ssa.If, *ssa.Jump:
+			return nil, false
+		}
+	}
+	for i, p := range fn.Params {
+		t := args[i]
+		t.T = p.Type()
+		vc.vals[p] = t
+	}
+	for i, fv := range fn.FreeVars {
+		vc.vals[fv] = vc.val(bindings[i])
+		if l, ok := vc.locOf(bindings[i]); ok {
+			vc.locs[fv] = l
+		}
+	}
+	var res []Term
+	for idx, in := range fn.Blocks[0].Instrs {
+		switch x := in.(type) {
+		case *ssa.Return:
+			for _, r := range x.Results {
+				res = append(res, vc.val(r))
+			}
+			return res, true
+		case *ssa.DebugRef:
+			continue
+		default:
+			vc.instr(in, idx)
+		}
+	}
+	return res, true
+}
+
+// blockReaches: to is reachable from a successor of from (so blockReaches(b, b) means b lies
+// on a cycle).
+func blockReaches(from, to *ssa.BasicBlock) bool {
+	seen := map[*ssa.BasicBlock]bool{}
+	var stack []*ssa.BasicBlock
+	stack = append(stack, from.Succs...)
+	for len(stack) > 0 {
+		b := stack[len(stack)-1]
+		stack = stack[:len(stack)-1]
+		if b == to {
+			return true
+		}
+		if seen[b] {
+			continue
+		}
+		seen[b] = true
+		stack = append(stack, b.Succs...)
+	}
+	return false
+}
+
 func (vc *FnVC) runDefers(in *ssa.RunDefers) {
-	for _, d := range vc.defers {
+	for k := len(vc.defers) - 1; k >= 0; k-- {
+		d := vc.defers[k]
 		name := calleeName(&d.Call)
 		if vc.isNoEffect(name) || strings.Contains(name, "Unlock") || strings.Contains(name, "RUnlock") {
 			continue
@@ -1000,6 +1329,24 @@ func (vc *FnVC) runDefers(in *ssa.RunDefers) {
 			if fn, ok := mc.Fn.(*ssa.Function); ok && vc.prog.closureIsEffectFree(fn) {
 				vc.assume("deferred closure " + fn.Name() + " checked syntactically to write no modelled memory (tracer/log only)")
 				continue
+			}
+			// an unconditional deferred straight-line closure (typically "restore the field I
+			// changed") is executed here, with its arguments as evaluated at the defer statement
+			if !d.Block().Dominates(in.Block()) && vc.loopInfo[d.Block()] == nil {
+				// this exit is reached without passing the defer statement only if the defer's
+				// block is not on the path: when it cannot reach this exit at all, skip it
+				if !blockReaches(d.Block(), in.Block()) {
+					continue
+				}
+			}
+			if fn, ok := mc.Fn.(*ssa.Function); ok && d.Block().Dominates(in.Block()) && !blockReaches(d.Block(), d.Block()) {
+				var args []Term
+				for _, a := range d.Call.Args {
+					args = append(args, vc.val(a))
+				}
+				if _, ok := vc.inlineSingleBlock(fn, args, mc.Bindings); ok {
+					continue
+				}
 			}
 		}
 		vc.errorf("defer %s: deferred call with possible effects is outside the verified subset", name)
@@ -1020,6 +1367,10 @@ func (vc *FnVC) noteCallTargets(ci ssa.CallInstruction, inLoop func(ssa.Value) b
 				} else {
 					note(comp, srt, "", false)
 				}
+			} else if ok {
+				seen := map[string]types.Type{}
+				ownTypes(st.Elem(), seen)
+				vc.noteTypes(seen, note)
 			}
 		case "delete":
 			mt := c.Args[0].Type().Underlying().(*types.Map)
@@ -1058,6 +1409,15 @@ func (vc *FnVC) noteCallTargets(ci ssa.CallInstruction, inLoop func(ssa.Value) b
 		args = append(args, mc.Bindings...)
 	}
 	for _, a := range args {
+		for {
+			if mi, ok := a.(*ssa.MakeInterface); ok {
+				a = mi.X
+			} else if ci, ok := a.(*ssa.ChangeInterface); ok {
+				a = ci.X
+			} else {
+				break
+			}
+		}
 		if l, ok := vc.locs[a]; ok {
 			note(l.comp, l.sort, "", false)
 			continue
@@ -1076,6 +1436,29 @@ func (vc *FnVC) noteCallTargets(ci ssa.CallInstruction, inLoop func(ssa.Value) b
 				comp, srt := vc.elemComp(u.Elem())
 				note(comp, srt, "", false)
 			}
+		}
+	}
+}
+
+// ownTypes: the struct types (and cells) an object of type t is made of, not following pointers.
+func ownTypes(t types.Type, seen map[string]types.Type) {
+	if isUint256(t) || isBigInt(t) {
+		seen["@cell:"+types.TypeString(t, nil)] = t
+		return
+	}
+	switch u := t.Underlying().(type) {
+	case *types.Struct:
+		seen[types.TypeString(t, nil)] = t
+		for i := 0; i < u.NumFields(); i++ {
+			if isObjectType(u.Field(i).Type()) {
+				ownTypes(u.Field(i).Type(), seen)
+			}
+		}
+	case *types.Array:
+		if isObjectType(u.Elem()) {
+			ownTypes(u.Elem(), seen)
+		} else {
+			seen["@scalar:"+types.TypeString(u.Elem(), nil)] = u.Elem()
 		}
 	}
 }
